@@ -107,6 +107,12 @@ def _cases(tier):
             for op in ("==", "in", "[k]"):
                 cases.append({"reeval": "twins", "a": a, "b": b, "wrap": wrap, "op": op})
                 cases.append({"reeval": "twins", "a": b, "b": a, "wrap": wrap, "op": op})
+    # a comparison that raises at one site (caught by the test) must leave the sites evaluated afterwards alone
+    for raiser in RAISERS:
+        for op in LATER:
+            for prev in (True, False):
+                for where in ("same-test", "next-test"):
+                    cases.append({"reeval": "raising", "raiser": raiser, "op": op, "prev": prev, "where": where})
     # one object that grows between the evaluations of one call site: every state it was compared in counts
     for op in GROWING:
         for prev in (True, False):
@@ -315,6 +321,8 @@ def _judge_reeval(c):
         return _judge_reeval_mut(c)
     if c["reeval"] == "growing":
         return _judge_growing(c)
+    if c["reeval"] == "raising":
+        return _judge_raising(c)
     if c["reeval"] == "handles":
         return _judge_handles(c)
     if c["reeval"] == "wrapped":
@@ -373,6 +381,57 @@ def _judge_finally(c):
         return [("written-argument-not-evaluable", "%s" % e)], ctx
     if cs[0]["nargs"] != 1 or got != fold:
         return [("site-aggregate-differs", "paths %s: written snapshot(%s), fold of the observations %r" % (seq, cs[0]["arg_text"].strip()[:80], fold))], ctx
+    return [None], ctx
+
+
+RAISERS = {  # a comparison at one call site that raises (and is caught by the test) before the other sites are evaluated
+    "eq-align-list": "[Boom(), 2] == snapshot([1, 2, 3])",
+    "eq-align-tuple": "(1, Boom()) == snapshot((1,))",
+    "eq-dict-value": "{'a': [Boom()]} == snapshot({'a': [1, 2]})",
+    "eq-plain": "Boom() == snapshot(1)",
+    "le-typeerror": "'a' <= snapshot(5)",
+    "in-raises": "Boom() in snapshot([1])",
+    "sub-align": "snapshot({'k': [1, 2]})['k'] == [Boom()]",
+}
+LATER = {  # op: (site source with V = the value list, fold of the observations [1, 2] from an empty snapshot / from the previous value)
+    "==": ("for v in (V):\n        _ok = [v // v, 2] == snapshot(P)", "[7]", [1, 2], [1, 2]),
+    "<=": ("for v in (V):\n        _ok = v <= snapshot(P)", "0", 2, 2),
+    "in": ("for v in (V):\n        _ok = v in snapshot(P)", "[7]", [1, 2], [7, 1, 2]),
+    "[k]": ("s = snapshot(P)\n    for v in (V):\n        _ok = s['k%d' % v] == v", "{'z': 0}", {"k1": 1, "k2": 2}, {"z": 0, "k1": 1, "k2": 2}),
+}
+
+
+def _judge_raising(c):
+    from ..drivers.inline import run_inline
+    from ..oracles.locate import snapshot_calls
+
+    site, prevtxt, fold_, fold_prev = LATER[c["op"]]
+    fold_ = fold_prev if c["prev"] else fold_
+    site = site.replace("(V)", "(1, 2)").replace("P", prevtxt if c["prev"] else "")
+    boom = "class Boom:\n    def __eq__(self, o):\n        raise KeyError('boom')\n\n    __hash__ = None\n\n\n"
+    first = "    try:\n        _r = %s\n    except (KeyError, TypeError):\n        pass\n" % RAISERS[c["raiser"]]
+    if c["where"] == "same-test":
+        body = "def test_0():\n" + first + "    " + site + "\n"
+    else:
+        body = "def test_0():\n" + first + "\n\ndef test_1():\n    " + site + "\n"
+    src = "from inline_snapshot import snapshot\n\n\n" + boom + body
+    ctx = {"src": src}
+    r = run_inline({"test_something.py": src}, ["create", "fix"])
+    ctx["after"] = r["files"].get("test_something.py", "")
+    if r["error"]:
+        return [("internal-error", r["error"]["type"] + ": " + r["error"]["msg"][:200])], ctx
+    if r["raised"]:
+        return [("test-raised", str(r["raised"])[:200])], ctx
+    try:
+        cs = snapshot_calls(ctx["after"])
+        got = eval(cs[1]["arg_text"] or "None")
+    except Exception as e:  # noqa
+        return [("written-argument-not-evaluable", "%s" % e)], ctx
+    if cs[1]["nargs"] != 1 or got != fold_ or type(got) is not type(fold_):
+        return [("site-after-raising-comparison-differs", "after `%s` raised: written snapshot(%s), fold of the observations %r" % (RAISERS[c["raiser"]], cs[1]["arg_text"].strip()[:80], fold_))], ctx
+    before = snapshot_calls(src)
+    if cs[0]["arg_text"] != before[0]["arg_text"]:
+        return [("raising-site-rewritten", "snapshot(%s) -> snapshot(%s)" % (before[0]["arg_text"], cs[0]["arg_text"][:80]))], ctx
     return [None], ctx
 
 
